@@ -318,12 +318,7 @@ class Snap(object):
             recs[a] = None
             t = type(o)
             if t is types.FunctionType:
-                cl = []
-                for c in (o.__closure__ or ()):
-                    try:
-                        cl.append(ref(c.cell_contents))
-                    except ValueError:
-                        raise Unsupported("empty cell")
+                cl = [ref(c) for c in (o.__closure__ or ())]
                 md = o.__module__ if isinstance(getattr(o, "__module__", None), str) else None
                 recs[a] = ["func", o.__name__, md, ref(o.__code__), ref(o.__defaults__), ref(o.__kwdefaults__),
                            ref(o.__doc__), ref(o.__annotations__), ref(o.__dict__), cl, list(o.__code__.co_freevars)]
@@ -350,6 +345,11 @@ class Snap(object):
                     recs[a] = ["dict", [[k, ref(v)] for k, v in o.items()]]
             elif t is types.MethodType:
                 recs[a] = ["method", ref(o.__func__), ref(o.__self__)]
+            elif t is types.CellType:
+                try:
+                    recs[a] = ["cell", ref(o.cell_contents)]
+                except ValueError:
+                    raise Unsupported("empty cell")
             elif t is types.ModuleType and any(o is m for m in self.modules):
                 recs[a] = ["module", ref(o.__dict__)]
             elif t is staticmethod:
@@ -375,15 +375,23 @@ class Snap(object):
 
 
 def bases_assignable(oldc, newc):
-    try:
-        ns = {}
-        if "__slots__" in oldc.__dict__:
-            ns["__slots__"] = oldc.__dict__["__slots__"]
-        clone = type(oldc.__name__, oldc.__bases__, ns)
-        clone.__bases__ = newc.__bases__
-        return True
-    except TypeError:
-        return False
+    """Would CPython accept the __bases__ assignment of _livepatch__class?  Tried on a clone of the old class, with
+    the new bases and with the new bases mapped to their old counterparts (same module and name); None when the
+    two answers differ (the case is then outside the oracle's reach)."""
+    def attempt(bases):
+        try:
+            ns = {}
+            if "__slots__" in oldc.__dict__:
+                ns["__slots__"] = oldc.__dict__["__slots__"]
+            clone = type(oldc.__name__, oldc.__bases__, ns)
+            clone.__bases__ = bases
+            return True
+        except TypeError:
+            return False
+    by_name = {(b.__module__, b.__name__): b for b in oldc.__bases__}
+    mapped = tuple(by_name.get((b.__module__, b.__name__), b) for b in newc.__bases__)
+    r1, r2 = attempt(newc.__bases__), attempt(mapped)
+    return r1 if r1 == r2 else None
 
 
 # ---------------------------------------------------------------------------------------------
@@ -580,8 +588,12 @@ def impl_case(c):
                 olds = [o for o in snap.keep if isinstance(o, type) and o.__dict__.get("__module__") == modname]
                 for o1 in olds:
                     for o2 in olds:
-                        if o1 is not o2 and o1.__name__ == o2.__name__ and bases_assignable(o1, o2):
-                            pairs.append([snap.addr(o1), snap.addr(o2)])
+                        if o1 is not o2 and o1.__name__ == o2.__name__:
+                            ok = bases_assignable(o1, o2)
+                            if ok is None:
+                                raise Unsupported("__bases__ assignment oracle undecided")
+                            if ok:
+                                pairs.append([snap.addr(o1), snap.addr(o2)])
                 box["bases_ok"] = pairs
                 box["nkeep"] = len(snap.keep)
             except Unsupported as e:
@@ -689,6 +701,8 @@ def c_obj(r, K):
         return "OInst %s %s %s %s" % (N(r[1]), cm.copt(r[2], N), cm.copt(r[3], lambda s: L([N(K[k]) for k in s])), kv(r[4]))
     if r[0] == "method":
         return "OMethod %s %s" % (N(r[1]), N(r[2]))
+    if r[0] == "cell":
+        return "OCell %s" % N(r[1])
     if r[0] == "module":
         return "OModule %s" % N(r[1])
     if r[0] == "static":
@@ -839,17 +853,13 @@ def oracle_case(ctx, c, im):
         elif want == "kept":
             if got != "kept":
                 ctx.violation("identity_kept", c, "%s is %s although name, closure shape, slots and bases are unchanged" % (n, got))
-            elif n in stale_classes(c) or any(resolve(c["nd"], n)[0] == "class" and k in stale_classes(c) for k in [n]):
-                pass
-            elif im["via_old_refs"].get(n) != fresh["names"].get(n) and is_stale_function_cell(n, c):
-                ctx.known_hit("C16-b", "%r keeps its identity but closes over a stale function: a cell of an updatable type is assumed patched, the result of the nested livepatch is ignored" % n)
             elif im["via_old_refs"].get(n) != fresh["names"].get(n):
                 ctx.violation("behaves_as_new_source", c, {"name": n, "via_old_reference": im["via_old_refs"].get(n), "fresh_import": fresh["names"].get(n)})
         elif want == "f20":
             if got != "kept":
                 ctx.known_hit("F20", "a closure cell of %r holds a different plain value: the function is replaced, references captured earlier keep the old behaviour" % n)
     for n in im.get("repointed", []):
-        ctx.known_hit("C16-e", "class %r keeps its identity but its __bases__ now point at the scratch module's base class: issubclass(m.%s, m.<base>) is False" % (n, n))
+        ctx.violation("class_bases_identity", c, "class %r keeps its identity but its __bases__ point at the scratch module's base class: issubclass(m.%s, m.<base>) is False" % (n, n))
     # names
     if set(im["after"]["names"]) != set(fresh["names"]):
         ctx.violation("dict_shape", c, {"after_reload": sorted(im["after"]["names"]), "fresh_import": sorted(fresh["names"])})
@@ -871,8 +881,6 @@ def oracle_case(ctx, c, im):
 
 
 def classify_namespace_difference(n, a, b, c):
-    if is_stale_function_cell(n, c):
-        return "C16-b stale function cell"
     return None
 
 
@@ -904,6 +912,9 @@ def compare(ctx, cases, impl, index, model):
             K = im["_K"]
             real_out = "done" if im["err"] is None else "raise"
             ctx.bump("model_outcome:" + mv["outcome"])
+            ctx.bump("wf_heap:" + str(mv["wf"]).lower())
+            if mv["wf"] is not True:
+                ctx.disagreement("hypothesis: the snapshot heap is well-formed (Wf.wf_heap)", c, "snapshot", mv["wf"])
             if mv["outcome"] == "unsupported":
                 ctx.bump("model:unsupported")
             elif mv["outcome"] != real_out:
@@ -946,7 +957,7 @@ def compare(ctx, cases, impl, index, model):
 
 
 def run(ctx):
-    n = int(os.environ.get("VERIF_C16_N", 200 if ctx.quick else 6000))
+    n = int(os.environ.get("VERIF_C16_N", 160 if ctx.quick else 6000))
     ctx.coverage["rule"] = (
         "one case = a generated (old, new) pair of module versions (plain / closure-made / decorated / aliased "
         "functions with defaults, docs and attributes; classes with methods, static and class methods, properties, "
@@ -963,6 +974,7 @@ def run(ctx):
         "CPython's acceptance of `oldclass.__bases__ = newclass.__bases__` is an oracle (evaluated on a clone of the old class)",
         "'observationally equal to a fresh import' is NOT proved: it is decided by this correspondence and the behavioural oracle only",
         "ids of transient objects are assumed not to be recycled into the livepatch cache / visit stack during one reload",
+        "every snapshot heap satisfies the well-formedness checker Wf.wf_heap (unique addresses, stored addresses allocated, kinds consistent); evaluated in the kernel on every case",
     ]
     ctx.notes["trusted_base"] = ["harness snapshot of the CPython object graph (harness/c16.py Snap)"]
     cm.check_anchors(ctx, ANCHORS)
